@@ -33,6 +33,9 @@ var vtC12T *testing.T
 
 var vtC12Sentinel = time.Unix(1000000000, 0)
 
+var vtC12Helper *sysutil.FileTestUtil
+var vtC12Case int
+
 var vtC12Types = []sysutil.ResourceType{
 	sysutil.CPUSetCPUSName, sysutil.CPUCFSQuotaName, sysutil.MemoryMinName, sysutil.MemoryLowName, sysutil.MemoryHighName,
 }
@@ -235,8 +238,17 @@ func vtC12Exec(in []int64) []int64 {
 		kinds[i] = int(rd.next())
 	}
 
-	helper := sysutil.NewFileTestUtil(t)
-	defer helper.Cleanup()
+	// one FileTestUtil for the whole run (NewFileTestUtil forks `getconf`); every case gets its own
+	// cgroup root below its temp dir
+	if vtC12Helper == nil {
+		vtC12Helper = sysutil.NewFileTestUtil(t)
+		t.Cleanup(vtC12Helper.Cleanup)
+	}
+	helper := vtC12Helper
+	vtC12Case++
+	root := filepath.Join(helper.TempDir, fmt.Sprintf("case%d", vtC12Case))
+	sysutil.Conf.CgroupRootDir = root
+	defer os.RemoveAll(root)
 	helper.SetCgroupsV2(v2)
 	helper.SetResourcesSupported(true, sysutil.MemoryMin, sysutil.MemoryLow, sysutil.MemoryHigh)
 
@@ -557,9 +569,21 @@ func vtC12Gen(r *rand.Rand, i int) (string, []int64) {
 		}
 		// levels: by depth (empty levels are kept), or one level per directory in a topological order
 		var lv [][]int
-		if r.Intn(4) == 0 {
+		keepOrder := false
+		if a := r.Intn(8); a < 2 {
 			for d := 0; d < nd; d++ {
 				lv = append(lv, []int{d})
+			}
+		} else if a < 4 {
+			// the directories in a topological order (par[d] < d) cut into chunks: a level may hold a
+			// directory together with its children, the parent first (as the qos level of cgreconcile does)
+			keepOrder = true
+			lv = append(lv, nil)
+			for d := 0; d < nd; d++ {
+				if d > 0 && r.Intn(3) == 0 {
+					lv = append(lv, nil)
+				}
+				lv[len(lv)-1] = append(lv[len(lv)-1], d)
 			}
 		} else {
 			maxd := 0
@@ -582,6 +606,11 @@ func vtC12Gen(r *rand.Rand, i int) (string, []int64) {
 			var row []int64
 			n := 0
 			ord := r.Perm(len(ds))
+			if keepOrder {
+				for j := range ord {
+					ord[j] = j
+				}
+			}
 			for _, j := range ord {
 				d := ds[j]
 				for _, ki := range r.Perm(nk) {
